@@ -24,7 +24,7 @@ FLOORS = {
                  'valuations_judged': 1500000, 'alias_present': 80000, 'alias_absent': 40000, 'split_happened': 10000},
 }
 BUDGET = {'quick': {'random': 14000, 'k3_sample': 0.03, 'envs': 16},
-          'thorough': {'random': 150000, 'k3_sample': 0.5, 'envs': 32}}
+          'thorough': {'random': 600000, 'k3_sample': 1.0, 'envs': 32}}
 TIMEOUT = {'quick': 900, 'thorough': 7200}
 
 THIS = c09.THIS
